@@ -251,6 +251,11 @@ pub fn run_c06(ctx: &Ctx) -> i32 {
             1 => v.default_storage = Storage::Zlib(6),
             _ => v.storage = true,
         }
+        // cel chunks of a frame in any order (the format does not prescribe one)
+        if i % 5 >= 3 {
+            v.cel_order = true;
+            res.count("cel_chunks_permuted", 1);
+        }
         res.count(&format!("storage:{}", ["raw", "zlib", "mixed"][(i % 3) as usize]), 1);
         res.count(&format!("format:{}", sp.fmt.name()), 1);
         res.count("cels", sp.cels.len() as u64);
